@@ -2146,3 +2146,45 @@ def rule_typedef_target_kinds(ctx, rep: Report, rid="V8"):
             f"look-up admits {sorted(admitted) if admitted is not None else 'elements of any kind (matched by name only)'}, the dispatch handles {sorted(handled)}"
             f"{' and raises otherwise' if raising_else else ' and has no else'}: `enum Kind {{A}}; typedef Kind<double> KD;` resolves to the enum, matches no branch, "
             f"and the typedef disappears from both generators' output instead of being rejected", f"{ins and 'gtwrap/template_instantiator/namespace.py'}:{chain_loc}")
+
+
+def rule_universal_newlines(ctx, rep: Report, rid="L6", min_sites=2):
+    """Interface text reaches the parser with its line breaks translated to `\\n`, whatever the file used (`\\r\\n`, a lone
+    `\\r`): pyparsing's `//` comment ends at `\\n` only, so an untranslated `\\r` file loses everything after its first line
+    comment.  Every file the generators open for reading is opened by the built-in text-mode `open` / `Path.open` /
+    `read_text` with the default newline handling - not through `codecs.open` (binary underneath), a `b` mode,
+    `read_bytes` or `newline=''`."""
+    prog = ctx.prog
+    n = 0
+    for mi in sorted(prog.modules.values(), key=lambda m: m.rel):
+        if not mi.rel.startswith(("gtwrap/", "scripts/")) or mi.rel.startswith("gtwrap/xml_parser"):
+            continue
+        for c in ast.walk(mi.tree):
+            if not isinstance(c, ast.Call):
+                continue
+            name = dotted(c.func) or (c.func.attr if isinstance(c.func, ast.Attribute) else "")
+            last = name.split(".")[-1]
+            if last not in ("open", "read_text", "read_bytes"):
+                continue
+            mode = None
+            if last == "open":
+                margs = c.args[1:2] if name in ("open", "io.open", "codecs.open") else c.args[0:1]
+                mode = margs[0] if margs else next((k.value for k in c.keywords if k.arg == "mode"), None)
+                mv = mode.value if isinstance(mode, ast.Constant) else ("r" if mode is None else None)
+                if mv is None or any(ch in mv for ch in "wax+"):
+                    continue                # not a read
+            n += 1
+            why = []
+            if name.startswith("codecs."):
+                why.append("codecs.open reads the file in binary mode underneath: line breaks are not translated")
+            if last == "read_bytes" or (last == "open" and isinstance(mode, ast.Constant) and "b" in str(mode.value)):
+                why.append("binary read")
+            nl = next((k.value for k in c.keywords if k.arg == "newline"), None)
+            if nl is not None and not (isinstance(nl, ast.Constant) and nl.value is None):
+                why.append(f"newline={unparse(nl)} switches the translation off")
+            fn = enclosing(c, ast.FunctionDef)
+            key = f"read:{fn.name if fn else '<module>'}:#{sum(1 for o in rep.obs if o.rule == rid and o.construct.startswith('read:' + (fn.name if fn else '<module>') + ':')) + 1}"
+            rep.add(rid, key + ":line breaks translated (universal newlines)", not why,
+                    f"`{unparse(c)[:60]}`: {'; '.join(why)}: a file with \\\\r\\\\n or \\\\r line breaks is parsed differently from its \\\\n twin", f"{mi.rel}:{c.lineno}")
+    if n < min_sites:
+        raise AnalysisError(f"{rep.prop}/{rid}: only {n} file reads found")
